@@ -609,11 +609,12 @@ impl Report {
             fs::write(dir.join(format!("{}.json", self.id)), serde_json::to_string_pretty(&ev).unwrap())
                 .expect("write evidence");
         }
-        if !self.machinery.is_empty() {
-            return 2;
-        }
+        // a violation observed on the real code is reported as such even if some other case hit a machinery error
         if !self.violations.is_empty() {
             return 1;
+        }
+        if !self.machinery.is_empty() {
+            return 2;
         }
         println!("[{}] OK: property held on everything explored", self.id);
         0
